@@ -140,7 +140,8 @@ JudgeDrawing(sc, d, img, w0, w1, r) ==
              (IF n = "fill_contiguous" THEN {"C04"} ELSE {}) \cup
              (IF d.reoriented THEN {"C10"} ELSE {}) \cup
              (IF d.faulted THEN {"C12"} ELSE {}) \cup
-             (IF cfg.iface = "spi" THEN {"C06"} ELSE IF cfg.iface \in {"p8", "p16"} THEN {"C07"} ELSE {})
+             (IF cfg.iface = "spi" THEN {"C06"} ELSE IF cfg.iface \in {"p8", "p16"} THEN {"C07"} ELSE {}) \cup
+             (IF sc.tag = "colour" THEN {"C05"} ELSE {}) \cup (IF sc.tag = "testimage" THEN {"C19"} ELSE {})
       newflags == w1.ctl.flags \ w0.ctl.flags
       wpp == WordsPerPixel(w1.ctl)
       fr == FramingErrors(w0.ctl, w1.cmds, wpp, IsDrawTarget(n))
